@@ -54,13 +54,13 @@ CLAIMS = {
  'C16': ("Unbounded theorems: for every issuer (non-empty, no colon), account, secret (non-empty, arbitrary bytes), supported hash, code length 0..255 and period < 2^63 the generated URL has scheme otpauth and type totp/hotp, and url.Parse of its textual form followed by ParseOTPAuthURL returns the same issuer, account, secret, hash, code length (0 as 6) and period (0 as 30); "
          "rests on unescape(escape s) = s and delimiter-freedom of escaped text (256-case byte sweeps lifted by induction) and on ParseQuery(Values.Encode l) = l; parsing any URL returns exactly the integers Atoi reads, within 0..255 / >= 0, or fails.",
          "net/url (shouldEscape, escape, unescape, validEncoded, EscapedPath, String, Parse incl. getScheme/parseAuthority/parseHost/setPath, ParseQuery, Values.Encode) is transcribed from go1.24.0 and compared on every run on delimiter-rich strings; IPv6/zone hosts are outside the model (answered out-of-model, counted as drift).", "6 C16"),
- 'C17': ("Unbounded theorems per helper: To8ByteBigEndian = 8-byte big-endian (value recovered), decimal parsing = that encoding of the value with rejection of empty/non-digit/overflow, LeftPadHex length and content, hex timestamps 8 bytes, "
+ 'C17': ("Unbounded theorems per helper: To8ByteBigEndian = 8-byte big-endian (value recovered), decimal parsing = that encoding of the value with rejection of empty/non-digit/overflow, LeftPadHex length and content, MustHexPadLeft = decoding of the text brought to 2*size characters (exactly size bytes; refusal by panic is its documented contract), hex timestamps 8 bytes, "
          "hex request fields field-wise with first-error, decimal question = RFC 6287 conversion, and end to end the OCRA code from a numeric question equals the RFC value.",
          "strconv, encoding/hex and math/big are transcribed as the functions the helpers use and compared on every run.", "6 C17"),
  'C14': ("Unbounded theorems (iff): SuiteConfig.Validate succeeds exactly for usable suites and OCRAInput.Validate exactly for admissible inputs (the property's sentence as a Prop); "
          "generation/validation get past admission exactly under both.",
          "Out-of-enum challenge formats / password hashes are outside the property; the model still mirrors the code there and the harness compares them.", "6 C14"),
- 'C18': ("Unbounded theorems over the REST model (router + ten handlers as request -> now -> response * work): a well-formed request reaches the handler with exactly its decoded fields; the codes the HOTP/TOTP endpoints return are the RFC 4226 values for the request's secret, counter / floor(timestamp/period) (period 0 or absent = 30), digits and hash spellings (unknown = 6 / SHA-1); a code generated by one endpoint validates at the matching endpoint (HOTP, OCRA); the suite list, suite description, secret and URL endpoints return the registry, the secret generator's and the URL builder's results.",
+ 'C18': ("Unbounded theorems over the REST model (router + ten handlers as request -> now -> response * work): a well-formed request reaches the handler with exactly its decoded fields; the codes the HOTP/TOTP endpoints return are the RFC 4226 values for the request's secret, counter / floor(timestamp/period) (period 0 or absent = 30), digits and hash spellings (unknown = 6 / SHA-1); a code generated by one endpoint validates at the matching endpoint (HOTP, TOTP, OCRA); the suite list, suite description, secret and URL endpoints return the registry, the secret generator's and the URL builder's results.",
          "The model's JSON layer is encoding/json's acceptance rule per DTO field type over a body *shape* (malformed / not an object / object with a value kind per field); tokenizing is Go's json.Valid in the harness. The tie is the real server binary built from the working tree, on loopback, on reused and fresh connections, sequences that differ only in an omitted field, and concurrent bursts compared with their sequential answers. Answers that depend on the server clock are checked against the timestamp the response reports.", "6 C18"),
  'C19': ("Unbounded theorem: for every request (any method, path, malformed / non-object / object body with any value kind in any field) the handler under the recovery middleware yields a status in {200,302,400,404,405,500}, status 200 exactly for a success body, after at most 21 HMAC derivations whatever skew/period/counter/timestamp the request carries; malformed bodies give 400 on every POST endpoint.",
          "Partial: 'promptly', 'complete HTTP response' and 'keeps serving' are socket/runtime behaviour the model cannot exhibit (fasthttp timeouts and limits, process liveness); the harness observes them on the real binary: hostile bodies up to 200 kB, every field with every JSON kind, 64-bit extremes, wrong methods and unknown paths, each batch followed by well-formed probes whose answers are checked, a 2 s latency bound per response and a liveness check.", "6 C19"),
